@@ -365,7 +365,7 @@ def run(pid, seed, t0):
     t_export = time.time() - t0
     PROG = ir.Program(ssa)
     pkg = 'vph/' + pid.lower()
-    hs = sorted(f for f in PROG.funcs if f.startswith(pkg + '.H_'))
+    hs = sorted(f for f in PROG.funcs if f.startswith(pkg + '.H_') and '$' not in f)
     if ARGS.only:
         hs = [h for h in hs if re.search(ARGS.only, h)]
     if not hs:
